@@ -135,7 +135,12 @@ func (c *Channel) registerSubChannelFunding(id channel.ID, bals channel.Balances
 		if cur.Balances.AssertGreaterOrEqual(bals) != nil {
 			return false
 		}
-		return cur.Balances.Sub(bals).Equal(cu.State.Balances)
+		if !cur.Balances.Sub(bals).Equal(cu.State.Balances) {
+			return false
+		}
+		// The sub-allocation is appended, all other locked funds stay as they are.
+		locked := append(cur.Clone().Locked, expected)
+		return channel.SubAllocsEqual(locked, cu.State.Locked)
 	}
 	ui := newUpdateInterceptor(filter)
 	c.subChannelFundings.Register(id, ui)
@@ -143,11 +148,20 @@ func (c *Channel) registerSubChannelFunding(id channel.ID, bals channel.Balances
 
 func (c *Channel) registerSubChannelSettlement(id channel.ID, bals [][]channel.Bal) {
 	filter := func(cu ChannelUpdate) bool {
-		_, containedBefore := c.machine.State().SubAlloc(id)
+		cur := c.machine.State()
+		subAlloc, containedBefore := cur.SubAlloc(id)
 		_, containedAfter := cu.State.SubAlloc(id)
-		equalBalances := c.machine.State().Balances.Add(bals).Equal(cu.State.Balances)
+		equalBalances := cur.Balances.Add(bals).Equal(cu.State.Balances)
 
-		return containedBefore && !containedAfter && equalBalances
+		if !containedBefore || containedAfter || !equalBalances {
+			return false
+		}
+		// Only this sub-allocation is removed, all other locked funds stay as they are.
+		rest := cur.Clone()
+		if err := rest.RemoveSubAlloc(subAlloc); err != nil {
+			return false
+		}
+		return channel.SubAllocsEqual(rest.Locked, cu.State.Locked)
 	}
 	ui := newUpdateInterceptor(filter)
 	c.subChannelWithdrawals.Register(id, ui)
